@@ -3,6 +3,8 @@
 package main
 
 import (
+	"math"
+
 	"github.com/google/pprof/internal/plugin"
 	"github.com/google/pprof/profile"
 )
@@ -92,5 +94,55 @@ func runC12DropE2E(c *Ctx) {
 			}
 			c12E2E(c, "e2e-drop-frames", ec)
 		}
+	}
+}
+
+// Neighbouring rare-but-valid shapes of the same family, pushed through the pipeline (op fetch) and
+// end to end (op e2e): no samples, extreme values, duplicate value columns, names with special
+// characters, nothing to symbolize (no location has a mapping), a drop_frames that matches every name.
+func runC12RareShapes(c *Ctx) {
+	special := []string{"a+b", "100%", "x\"y", "tab\there", "<T>", "\xe6\x97\xa5\xe6\x9c\xac", "two  spaces ", "(anonymous namespace)::f", "operator()", "a|b", "%2B", "\\d+"}
+	type shape struct {
+		gen  string
+		p    *profile.Profile
+		name string
+	}
+	var shapes []shape
+	{
+		p := c12DropProfile("", "")
+		p.Sample = nil
+		shapes = append(shapes, shape{"no-samples", p, "work2"})
+	}
+	{
+		p := c12DropProfile("", "")
+		p.Sample[0].Value = []int64{math.MaxInt64, math.MinInt64}
+		p.Sample[1].Value = []int64{math.MinInt64, math.MaxInt64}
+		shapes = append(shapes, shape{"extreme-values", p, "work2"})
+	}
+	{
+		p := c12DropProfile("", "")
+		for _, l := range p.Location {
+			l.Mapping = nil
+		}
+		shapes = append(shapes, shape{"no-location-mapped", p, "work2"})
+	}
+	{
+		p := c12DropProfile("main|work|leaf|outer|leaf_inl|every|pre_malloc_done", "")
+		shapes = append(shapes, shape{"drop-everything", p, "every"})
+	}
+	{
+		p := c12DropProfile("malloc|free", "malloc|free")
+		shapes = append(shapes, shape{"keep-equals-drop", p, "free"})
+	}
+	for _, n := range special {
+		shapes = append(shapes, shape{"special-name", c12DropProfile("two  spaces |100%", ""), n})
+	}
+	for _, s := range shapes {
+		c12Fetch(c, "fetch-rare-"+s.gen, "local", "", s.p, c12DropScript(s.name))
+		data := c12Serialize(s.p)
+		if q, err := profile.ParseData(data); err != nil || q.CheckValid() != nil {
+			continue
+		}
+		c12E2E(c, "e2e-rare-"+s.gen, &c12E2ECase{mode: "local", data: data, script: c12DropScript(s.name)})
 	}
 }
